@@ -117,7 +117,6 @@ func c07Config(r *fw.Rec, v int, l qrref.Level, mask int, reps int) {
 	}
 }
 
-
 func c07Tables(r *fw.Rec) {
 	for v := 1; v <= 40; v++ {
 		ver, err := qrdec.Version_GetVersionForNumber(v)
